@@ -38,3 +38,35 @@ SCRIPT_ASSUMPTIONS = [
     'symbolic values range over the interior of the documented register ranges (edges: C07)',
     'time and duration literals are 0 or at least 1/1000 of their unit (units.py snaps raw times below 2**-17 ms to 0; a shorter wait and no wait are the same nearest-millisecond setting)',
 ]
+
+
+def fixed_scripts(res, site, entries, specs=None):
+    """Small scripts whose meaning the documentation fixes outright: each must compile and print exactly the listed
+    values ('\\n' stands for a line end).  entries: (script, expected list).  Violations are replayed by construction
+    (plain values, real compiler and VM)."""
+    from bardolph.parser.parse import Parser
+    from bardolph.vm.machine import Machine
+    from vlib import world
+    res.sites.add(site)
+    for text, want in entries:
+        res.nontrivial += 1
+        net = world.configure(specs) if specs is not None else world.configure()
+        world.uninstall_real_mode()
+        p = Parser()
+        try:
+            ok = p.parse(text)
+        except Exception as ex:
+            res.violation('%s|compiler raises' % site, 'compiler raises %s: %s\n  script: %s' % (type(ex).__name__, ex, text), inputs={'script': text}, replayed=True)
+            continue
+        res.reached.add(site)
+        if not ok:
+            res.violation('%s|rejected' % site, 'a valid script is rejected: %s\n  script: %s' % (p.get_errors().strip(), text), inputs={'script': text}, replayed=True)
+            continue
+        m = Machine()
+        m.reset()
+        m.run(p.get_program())
+        outs = ['\n' if e[0] == 'newline' else e[1] for e in net.trace if e[0] in ('out', 'newline')]
+        if net.aborted or outs != list(want):
+            res.violation('%s|wrong output' % site, 'prints %r%s, expected %r\n  script: %s' % (outs, ' (%s)' % net.aborted if net.aborted else '', list(want), text),
+                          inputs={'script': text}, replayed=True)
+    world.install_real_mode()
